@@ -12,8 +12,6 @@ NOTES = {
              "function (thorough tier, sort stubbed) runs at MAX_STREAMS 1 and 2 only (4: out of memory) and the change needs >= 3 streams",
     "C10-3": "replaces `peek_remaining().concat()` + `sort_unstable()` by an iterator chain (unsorted vacant ids): Verus undecided (lost anchor); reported by the THOROUGH tier: "
              "Kani streams_manager.sync_vacant_and_used_streams_real at MAX_STREAMS = 2",
-    "C06-6": "`poll_next` calls `drop_resources()` when it answers end-of-stream (through `Pin::get_mut`, a sentinel id): not accepted by Verus (undecided); the Kani poll_next kit checks the "
-             "answers and the waker registration of the poll, not the running-stream count after end-of-stream -- a gap left open (a harness edit would have invalidated every memoised verdict at the end of the session)",
 }
 
 
